@@ -18,27 +18,41 @@ FRACS = [0.37, 0.61, 0.13, 0.89, 0.29, 0.71, 0.43, 0.57]
 #     tiny-skia rasterises the same path slightly differently into a small pixmap (the direct rendering is
 #     bit-identical under integer shifts, so it is not the transform);
 #   * opacity: nested 0.5*0.5 and 0.75*0.5 vs the product: all files within +-1; opacity 0: all blank.
-# Rule: no more than 2 pixels above 64 levels, no more than max(6, 1/60 of the painted pixels) above 8
-# levels, no more than max(8, 1/50) above 1 level, and no thin line (>= 6 pixels in a 1-2 pixel wide row or
-# column) of differing pixels - the signature of a clipped or shifted layer.
+#   * views where content crosses a canvas edge (native / crop, generated documents): tiny-skia's path clipper
+#     makes the *direct* rendering differ from the layered one (up to 255 levels inside glyphs that cross the
+#     edge), so there a pixel counts only if the isolated rendering differs from the direct rendering AND from
+#     the crop of a direct rendering on a canvas large enough that nothing crosses (harness reference_crop).
+#     With that: corpus native/crop 0 files above 2 levels except <= 20 pixels of class (a); generated documents:
+#     <= 8 pixels <= 32 levels (huge stroked curves at 3x), <= 35 pixels <= 8 levels (opacity of AA fringes).
+#     Over seeds: a 7-pixel glyph stem top off by one AA sub-scanline (64 levels; text/text/xml-lang=ja.svg at 0.5x),
+#     16 of 63 painted pixels <= 32 levels on a 12x100 canvas showing only the edge of a huge stroked curve.
+# Rule (deltas up to 32 levels = two AA sub-samples are rasteriser noise, above that almost nothing is allowed):
+# at most 2 pixels above 64 levels; at most max(6, 1/80 of the painted pixels) above 32; at most max(16, 1/20)
+# above 8; at most max(40, 1/10) above 1; no solid thin line (>= 6 pixels filling at least half of a 1-2 pixel
+# wide row or column) that reaches more than 64 levels - the signature of a clipped or shifted layer.
 # ------------------------------------------------------------------------------------------------
-def judge(r, strict_line=True):
+def judge(r, strict_line=True, crossing=False):
     nb = max(1, r.get('nonblank', 0))
     if r['n64'] > 2:
         return "%d pixels differ by more than 64 levels (max %d, %d painted)" % (r['n64'], r['max'], nb)
-    if r['n8'] > max(6, nb // 60):
+    if r['n32'] > max(6, nb // 80):
+        return "%d pixels differ by more than 32 levels (of %d painted, max %d)" % (r['n32'], nb, r['max'])
+    # crossing: content crosses a canvas edge at different places in the two renderings: tiny-skia's path clipper
+    # perturbs anti-aliased edges by up to two sub-samples; only larger deltas count there
+    if not crossing and r['n8'] > max(16, nb // 20):
         return "%d pixels differ by more than 8 levels (of %d painted, max %d)" % (r['n8'], nb, r['max'])
-    if r['n1'] > max(8, nb // 50):
+    if not crossing and r['n1'] > max(40, nb // 10):
         return "%d pixels differ by more than 1 level (of %d painted, max %d)" % (r['n1'], nb, r['max'])
-    if strict_line and r['n1'] >= 6 and 'dbox' in r:
+    if strict_line and r['n1'] >= 6 and r['max'] > 64 and 'dbox' in r:
         x0, y0, x1, y1 = r['dbox']
         w, h = x1 - x0 + 1, y1 - y0 + 1
-        if (w <= 2 and h >= 6) or (h <= 2 and w >= 6):
+        # a (nearly) solid thin line: at least half of the cells of a 1-2 pixel wide row / column differ
+        if ((w <= 2 and h >= 6) or (h <= 2 and w >= 6)) and 2 * r['n1'] >= max(w, h):
             return "a %dx%d line of %d differing pixels (clipped or shifted layer signature)" % (w, h, r['n1'])
     return None
 
 
-def run_iso(ctx, binp, items, label, crossing_ok=False):
+def run_iso(ctx, binp, items, label):
     """items: list of (doc, mode, seed, cfg).  Returns stats; reports violations."""
     payloads = ["-\t%s\t%s\t%d\t%s" % (d.replace('\n', ' ').replace('\t', ' '), m, s, c) for d, m, s, c in items]
     outs = ctx.rvh_batch(binp, 'c14-iso', payloads, per_item_timeout=25)
@@ -75,12 +89,23 @@ def run_iso(ctx, binp, items, label, crossing_ok=False):
         if why is None:
             st['noisy'] += 1
             continue
-        if crossing_ok and r.get('crossing'):
-            # content crosses a canvas edge: tiny-skia's path clipper makes the direct rendering differ from the
-            # one through a (larger) layer.  Accepted only if the difference is small.
-            if r['n8'] <= max(12, r['nonblank'] // 12):
-                st['edge_class'] += 1
-                continue
+        if r.get('frame_bad', 0) > 0:
+            # genuine defect (C14_nested_layer_covers_content_refuted): a nested layer clamped against the
+            # untranslated max_bbox loses content that is on the canvas
+            st['nested_clamp'] = st.get('nested_clamp', 0) + 1
+            ctx.known_or_violation('nested-layer-clamp', "%s: %s [mode %s, view %s]" % (label, why, m, c),
+                                   dict(op='c14-iso', doc=d, mode=m, seed=s, cfg=c, result=r))
+            continue
+        if r.get('ulp_flip'):
+            st['ulp_flip'] = st.get('ulp_flip', 0) + 1
+            ctx.known_or_violation('filter-region-ulp', "%s: %s [mode %s, view %s]" % (label, why, m, c),
+                                   dict(op='c14-iso', doc=d, mode=m, seed=s, cfg=c, result=r))
+            continue
+        if r.get('crossing') and not r.get('ref'):
+            # content crosses a canvas edge and the no-crossing reference canvas would be too large: tiny-skia's
+            # path clipper makes the direct rendering itself unreliable here; not judged
+            st['edge_class'] += 1
+            continue
         nviol += 1
         if nviol <= 3:
             ctx.violation("%s: isolation changes the picture: %s [mode %s, view %s]" % (label, why, m, c),
@@ -137,6 +162,8 @@ def run(ctx):
     broken = ctx.translate()
     res = ctx.coq_props()
     proof_ok = res['ok'] and not broken
+    # the model files the correspondence evaluates (also when a proof file no longer compiles)
+    ctx.coq_build(['Model/Corr.v', 'Model/Render.v', 'Model/Compose.v'])
 
     binp, blog = ctx.harness('release')
     if binp is None:
@@ -164,13 +191,13 @@ def run(ctx):
     # ------------------------------------------------------------------ S: e2e-C14 on the corpus (nothing crosses a canvas edge)
     stats = {}
 
-    def corpus_items(mode, scale, sample=None, skip_heavy=False):
+    def corpus_items(mode, scale, sample=None, skip_heavy=False, kind='fit'):
         fs = files if sample is None else rng.sample(files, sample)
         out = []
         for f in fs:
             if skip_heavy and ('feMorphology' in f or 'feTurbulence' in f):
                 continue
-            out.append(('@' + f, mode, rng.below(1 << 30) + 1, cfg_fit(rng, scale)))
+            out.append(('@' + f, mode, rng.below(1 << 30) + 1, "%s:%s:%s:%s" % (kind, scale, rng.choice(FRACS), rng.choice(FRACS))))
         return out
     plan = [('root', 1, None, False), ('all', 1, None, False), ('inner', 1, None, False), ('nest2', 0.5, None, False),
             ('root', 3, 400 if quick else None, True), ('inner', 0.5, 400 if quick else None, False),
@@ -178,11 +205,15 @@ def run(ctx):
             ('op0', 1, 300 if quick else None, False), ('op1', 1, 300 if quick else None, False)]
     if not quick:
         plan += [('all', 3, None, True), ('nest4', 1.7, None, True), ('inner', 3, None, True), ('all', 0.5, None, False)]
-    for mode, scale, sample, skip_heavy in plan:
-        items = corpus_items(mode, scale, sample, skip_heavy)
+    plan = [p + ('fit',) for p in plan]
+    # content crossing the canvas edges: judged against a no-crossing reference (see harness c14.rs reference_crop)
+    plan += [('root', 1, 500 if quick else None, False, 'native'), ('all', 1, 500 if quick else None, False, 'crop'),
+             ('inner', 1, 300 if quick else None, False, 'crop')]
+    for mode, scale, sample, skip_heavy, kind in plan:
+        items = corpus_items(mode, scale, sample, skip_heavy, kind)
         st = run_iso(ctx, binp, items, "e2e-C14 corpus")
-        stats["corpus %s @%sx" % (mode, scale)] = st
-        ctx.log("e2e-C14 corpus %-15s @%sx: %s" % (mode, scale, st))
+        stats["corpus %s %s @%sx" % (mode, kind, scale)] = st
+        ctx.log("e2e-C14 corpus %-15s %-6s @%sx: %s" % (mode, kind, scale, st))
         if len(ctx.violations) > 8:
             break
 
@@ -195,7 +226,7 @@ def run(ctx):
         kind = rng.choice(['native', 'native', 'fit', 'crop'])
         cfg = "%s:%s:%s:%s" % (kind, rng.choice([0.5, 1, 3]), rng.choice(FRACS), rng.choice(FRACS))
         items.append((doc, mode, rng.below(1 << 30) + 1, cfg))
-    st = run_iso(ctx, binp, items, "e2e-C14 generated", crossing_ok=True)
+    st = run_iso(ctx, binp, items, "e2e-C14 generated")
     stats['generated'] = st
     ctx.log("e2e-C14 generated: %s" % st)
     ctx.add_sample(dict(op='c14-iso', doc=items[0][0], mode=items[0][1], cfg=items[0][3]))
